@@ -49,7 +49,11 @@ fn rig() -> Result<Rig, String> {
 
 /// send the datagrams one at a time; compare what the transport returns for each with the decode
 /// of the datagram's own bytes. Err = harness error (loopback did not deliver).
-fn play(r: &mut Rig, history: &[Vec<u8>]) -> Result<Option<CViol>, String> {
+fn play(history: &[Vec<u8>]) -> Result<Option<CViol>, String> {
+    // a fresh transport per history: the verdict is a function of the history alone (a transport
+    // carried over from the previous history would make a finding depend on datagrams that the
+    // replay file does not list)
+    let r = &mut rig()?;
     for (i, d) in history.iter().enumerate() {
         r.peer.send_to(d, r.addr).map_err(|e| format!("send: {e}"))?;
         let got = r.rt.block_on(async { tokio::time::timeout(Duration::from_secs(2), r.transport.receive()).await });
@@ -100,13 +104,6 @@ fn run(tier: Tier, seed: u64, workers: usize) -> COut {
     let workers = workers.min(8);
     let mut out = par(n, workers, |lo, hi| {
         let mut o = COut::default();
-        let mut r = match rig() {
-            Ok(r) => r,
-            Err(e) => {
-                o.harness_errors.push(format!("cannot set up loopback sockets: {e}"));
-                return o;
-            }
-        };
         let (mut sent, mut hist) = (0u64, 0u64);
         for j in lo..hi {
             let d2 = &corpus[j].bytes;
@@ -122,7 +119,7 @@ fn run(tier: Tier, seed: u64, workers: usize) -> COut {
                 for cut in 0..d2.len() {
                     hist += 1;
                     sent += 1;
-                    match play(&mut r, &[d2[..cut].to_vec()]) {
+                    match play(&[d2[..cut].to_vec(), d2.clone()]) {
                         Ok(Some(v)) => o.viol(v),
                         Ok(None) => {}
                         Err(e) => {
@@ -144,9 +141,16 @@ fn run(tier: Tier, seed: u64, workers: usize) -> COut {
                     if pi == 0 && cut % 7 == 3 {
                         h.push(d2[..cut / 2].to_vec());
                     }
+                    // what follows a truncated datagram must be decoded from its own bytes too: the
+                    // complete datagram (a retransmission), the lost tail alone, or another PDU
+                    match cut % 3 {
+                        0 => h.push(d2.clone()),
+                        1 => h.push(d2[cut..].to_vec()),
+                        _ => h.push(d1.clone()),
+                    }
                     hist += 1;
                     sent += h.len() as u64;
-                    match play(&mut r, &h) {
+                    match play(&h) {
                         Ok(Some(v)) => o.viol(v),
                         Ok(None) => {}
                         Err(e) => {
@@ -181,15 +185,14 @@ fn replay(text: &str) -> Result<Vec<CViol>, String> {
     if h.is_empty() {
         return Err("no datagrams".into());
     }
-    let mut r = rig()?;
-    play(&mut r, &h).map(|v| v.into_iter().collect())
+    play(&h).map(|v| v.into_iter().collect())
 }
 
 pub fn check() -> Custom {
     Custom {
         prop: "C16",
         level: "fault_enumeration",
-        rule: "one evaluation = one history (a valid datagram D1, then a truncation of a valid datagram D2 no longer than D1, sometimes a second truncation) sent one datagram at a time to the real UdpTransport over loopback; the value returned by receive() for each datagram is compared with PDU::decode of that datagram's own bytes; non-trivial = every history (each contains a truncated datagram); distinct = distinct (D2, D1, truncation length)",
+        rule: "one evaluation = one history (a valid datagram D1, then a truncation of a valid datagram D2 no longer than D1, sometimes a second truncation, then a follower: D2 complete, D2's lost tail alone, or D1 again) sent one datagram at a time to a fresh real UdpTransport over loopback; the value returned by receive() for each datagram is compared with PDU::decode of that datagram's own bytes; non-trivial = every history (each contains a truncated datagram); distinct = distinct (D2, D1, truncation length)",
         assumptions: vec![
             "the kernel's loopback UDP delivers a datagram sent to a bound local socket (a receive that does not complete within 2 s is a harness error, exit 2, never a verdict)",
             "exactly one datagram in flight: no reordering or loss can occur",
